@@ -234,6 +234,12 @@ PROPS.update({
     },
 })
 
+A_STALE = "A-stale: StaleNode::stale_key_values (filter + itertools sort) is assumed to yield exactly the member's entries above the start version in strictly ascending version order; SortedStaleNodes::into_iter (BTreeMap + shuffle) is modelled as some sequence of members with distinct ids; both are exercised on the real functions by the bounded drivers c07_window / c14_scope"
+for _p in ("C07", "C03", "C14", "C02"):
+    PROPS[_p]["verus"].append({"unit": U2, "fns": ["serialize_stale_nodes", "lemma_prefix_is_ok", "lemma_ok_window", "lemma_ok_entries", "lemma_ok_sorted"]})
+    PROPS[_p]["assumptions"].append(A_STALE)
+PROPS["C07"]["level_text"] += " The serializer loop of compute_partial_delta_respecting_mtu (sliced mechanically, R10) is proved to write members in the order offered, every member but the last completely and the last one as a prefix of its version-sorted stale entries - i.e. for each member included, exactly the sender's entries in (start, delta max version], ascending and gap-free, so running out of space only drops the highest versions."
+PROPS["C07"]["level_note"] = "For an op larger than the 16 KiB block the hand-derived bound is short by 3 bytes per extra block if every block is incompressible; the proved statement is 'mtu <= 16384 => serialized_len <= mtu' plus the one-block step, and the gap is an unchecked compressibility assumption. The content clause rests on the assumed contract of stale_key_values (A-stale) and of the first loop (which members are offered with which start version: sender_decision is proved, the map iteration and the scheduled-for-deletion filter are not); both are checked on the real function by the bounded driver c07_window; the end-to-end reply length incl. the 4-byte header and own digest by c07_reply_size."
 U5 = "u5_lib"
 A_U5 = "U5 restates the failure detector as an opaque type with ghost views (live set, dead set, number of heartbeat reports per member); the three stubs used (report_heartbeat, get_or_create_sampling_window) state what U4 proves / assumes on the real detector"
 A_LRU = "A-lru: lru::LruCache::{peek, pop, push} behave as a map (view); ClusterState::node_state_mut_or_init (BTreeMap Entry API + LruCache::pop) has an assumed contract exercised by the bounded drivers c12_timeline / c18_catchup"
